@@ -272,6 +272,13 @@ def check_runs(case, t, opts, dets, cls, tags=None):
                         out.append((cls + "features/corner-value", "%s: corner of vertex %d is %d, angle sum %.6f allows %s"
                                     % (tag, v, c, angle_sum(case, v), sorted(cand))))
                         break
+        na = d.get("new_attrs")
+        if na is not None:
+            allowed = {"vertices": {"feature", "border"} | ({"corners"} if opt["flag_corners"] else set()),
+                       "edges": {"feature"}, "faces": set(), "corners": set()}
+            leaked = {k: sorted(set(v) - allowed[k]) for k, v in na.items() if set(v) - allowed[k]}
+            if leaked:
+                out.append((cls + "features/leaked-attributes", "%s left new attributes on the mesh: %s" % (tag, leaked)))
         if opt["graph"] and "graph" in d:
             g = d["graph"]
             if "exc" in g:
